@@ -52,6 +52,27 @@ func (g *Engine) registerIntrinsics() {
 		}
 	}
 	vx("vxInt", func(e *Exec, a []Value, pos token.Pos) Value { return e.freshInput("int", 64) })
+	// vxLen(max): an int in [0, max]; encoded as a narrow variable zero-extended to 64 bits so that
+	// the high bits are syntactically zero (large speed-up for the bit-blaster)
+	vx("vxLen", func(e *Exec, a []Value, pos token.Pos) Value {
+		if mt := a[0].(*Term); !mt.isConst() {
+			v := e.freshInput("int", 64)
+			e.assume(e.tb.And(e.tb.Cmp(OSle, e.tb.K(64, 0), v), e.tb.Cmp(OSle, v, mt)))
+			return v
+		}
+		max := e.argInt(a[0])
+		bits := 1
+		for (1 << uint(bits)) <= max {
+			bits++
+		}
+		v := e.tb.Fresh("v", bits)
+		t := e.tb.Conv(v, 64, false)
+		e.recordInput("int", 64, "", t)
+		if max != (1<<uint(bits))-1 {
+			e.assume(e.tb.Cmp(OUle, v, e.tb.K(bits, uint64(max))))
+		}
+		return t
+	})
 	vx("vxU64", func(e *Exec, a []Value, pos token.Pos) Value { return e.freshInput("u64", 64) })
 	vx("vxU32", func(e *Exec, a []Value, pos token.Pos) Value { return e.freshInput("u32", 32) })
 	vx("vxU16", func(e *Exec, a []Value, pos token.Pos) Value { return e.freshInput("u16", 16) })
